@@ -268,51 +268,63 @@ func c15Drain(r *core.Report, run *core.Func) {
 		r.Check(add != nil && send != nil && g.Dominates(add, send), rule, sf.Key+"#add-before-send", posP(r, sf.Pos()), "WaitGroup.Add precedes the send on the queue",
 			"the group is queued before (or without) being counted in the WaitGroup: shutdown can close the queue while a group is still in flight")
 	}
-	// (b) startFlusher: Done on the path after a successful flush
+	// (b) startFlusher: Done after every group taken from the queue, and only once the group was delivered
 	if fl := r.Anchor(rule, "accum.(*ObjectAccumulator).startFlusher"); fl != nil {
 		info := fl.Pkg.TypesInfo
 		g := p.Graph(fl)
-		var flush, done *core.GNode
+		var done, recv *core.GNode
+		deliver := map[*core.GNode]bool{} // the call of the callback wrapper, or of the callback field itself
+		parentText := ""
 		for _, n := range stmtNodes(g) {
 			for _, c := range nodeCalls(n) {
 				switch core.CalleeName(info, c) {
 				case "accum.(*ObjectAccumulator).flush":
-					flush = n
+					deliver[n] = true
+					if len(c.Args) > 0 {
+						parentText = core.ExprStr(c.Args[0])
+					}
 				case "sync.(*WaitGroup).Done":
 					done = n
 				}
-			}
-		}
-		ok := flush != nil && done != nil
-		if ok {
-			// from the err == nil side of the flush, the loop head is not reachable without Done
-			var okEdge *core.GNode
-			for _, e := range g.Nodes {
-				if e.Kind == core.KEdge && g.Dominates(flush, e) {
-					for _, fc := range e.Facts() {
-						if _, eq, isNil := core.NilCompare(info, fc.Expr); isNil && eq == fc.Truth {
-							okEdge = e
-						}
+				if isAccumulatorCallback(info, c) {
+					deliver[n] = true
+					if len(c.Args) > 0 {
+						parentText = core.ExprStr(c.Args[0])
 					}
 				}
 			}
-			if okEdge == nil {
-				ok = false
-			} else {
-				path := g.PathAvoiding(okEdge, func(x *core.GNode) bool { return x == flush }, func(x *core.GNode) bool { return x == done })
-				ok = path == nil
+		}
+		recv, _ = queueTake(g, fl, "flushQueue")
+		isDeliver := func(x *core.GNode) bool { return deliver[x] }
+		// edges on which the group is known to have no parent (such a group may be skipped when it is empty)
+		noParent := map[*core.GNode]bool{}
+		for _, e := range g.Nodes {
+			if e.Kind != core.KEdge || e.Ast == nil || parentText == "" {
+				continue
+			}
+			for _, fc := range e.Facts() {
+				if x, eq, isNil := core.NilCompare(info, fc.Expr); isNil && fc.Tag == nil && fc.Unless == nil && core.ExprStr(x) == parentText && eq == fc.Truth {
+					noParent[e] = true
+				}
 			}
 		}
-		r.Check(ok, rule, fl.Key+"#done-after-each-group", posP(r, fl.Pos()), "every successfully flushed group is followed by WaitGroup.Done before the next one is taken",
+		ok := len(deliver) > 0 && done != nil && recv != nil
+		if ok {
+			// no way round the loop from one receive to the next without Done
+			ok = !cycleAvoiding(g, recv, func(x *core.GNode) bool { return x == done })
+		}
+		r.Check(ok, rule, fl.Key+"#done-after-each-group", posP(r, fl.Pos()), "every group taken from the queue is followed by WaitGroup.Done before the next one is taken",
 			"a group can be flushed without WaitGroup.Done being called: Run's shutdown waits forever")
 		// Done (and the return of the group's buffer to the pool) only after the callback has run: Run's Wait must cover the callback
-		if flush != nil && done != nil {
-			r.Check(g.Dominates(flush, done), rule, fl.Key+"#done-only-after-callback", pos(r, done.Ast), "WaitGroup.Done is reached only after the group's callback returned",
+		if len(deliver) > 0 && done != nil && recv != nil {
+			skip := func(x *core.GNode) bool { return isDeliver(x) || noParent[x] }
+			r.Check(g.PathAvoiding(recv, func(x *core.GNode) bool { return x == done }, skip) == nil, rule, fl.Key+"#done-only-after-callback", pos(r, done.Ast), "WaitGroup.Done is reached only after the group's callback returned",
 				"WaitGroup.Done is signalled before the group's callback has run: Run's deferred Wait no longer covers the callback, so Run can return before the last group was delivered")
 			for _, n := range stmtNodes(g) {
 				for _, c := range nodeCalls(n) {
 					if core.CalleeName(info, c) == "accum.putFlushBuffer" {
-						r.Check(g.Dominates(flush, n), rule, fl.Key+"#buffer-released-only-after-callback", pos(r, c), "the group's buffer goes back to the pool only after the callback returned",
+						n := n
+						r.Check(g.PathAvoiding(recv, func(x *core.GNode) bool { return x == n }, skip) == nil, rule, fl.Key+"#buffer-released-only-after-callback", pos(r, c), "the group's buffer goes back to the pool only after the callback returned",
 							"the group's buffer is returned to the pool before the callback ran: the next group can overwrite the children the callback is about to read")
 					}
 				}
@@ -509,4 +521,102 @@ func callReturnsFresh(p *core.Prog, in *core.Func, call *ast.CallExpr) bool {
 		}
 	}
 	return true
+}
+
+// isAccumulatorCallback: c invokes a function-typed field of the ObjectAccumulator (its callback).
+func isAccumulatorCallback(info *types.Info, c *ast.CallExpr) bool {
+	sel, ok := core.Unparen(c.Fun).(*ast.SelectorExpr)
+	if !ok {
+		return false
+	}
+	fld, isVar := info.Uses[sel.Sel].(*types.Var)
+	if !isVar || !fld.IsField() {
+		return false
+	}
+	if _, isSig := fld.Type().Underlying().(*types.Signature); !isSig {
+		return false
+	}
+	rt := info.TypeOf(sel.X)
+	return rt != nil && strings.HasSuffix(strings.TrimPrefix(rt.String(), "*"), "ObjectAccumulator")
+}
+
+// takesFromQueue: the statement receives from (or ranges over) the channel field named q.
+func takesFromQueue(n ast.Node, q string) bool {
+	if n == nil {
+		return false
+	}
+	if rs, ok := n.(*ast.RangeStmt); ok {
+		return strings.HasSuffix(core.ExprStr(rs.X), q)
+	}
+	found := false
+	ast.Inspect(n, func(m ast.Node) bool {
+		if _, isLit := m.(*ast.FuncLit); isLit {
+			return false
+		}
+		if u, ok := m.(*ast.UnaryExpr); ok && u.Op == token.ARROW && strings.HasSuffix(core.ExprStr(u.X), q) {
+			found = true
+		}
+		return !found
+	})
+	return found
+}
+
+// cycleAvoiding: n can be reached again from n without passing a node of `avoid`.
+func cycleAvoiding(g *core.Graph, n *core.GNode, avoid func(*core.GNode) bool) bool {
+	for _, s := range n.Succs {
+		if avoid(s) {
+			continue
+		}
+		if s == n || g.PathAvoiding(s, func(x *core.GNode) bool { return x == n }, avoid) != nil {
+			return true
+		}
+	}
+	return false
+}
+
+// queueTake finds where a function takes an element from the channel field named q (any channel when q is empty) and
+// returns the node at which the element has just arrived, with the variable that holds it. go/cfg evaluates every
+// communication of a select before branching, so for a select case the arrival node is the one go/cfg puts at the head
+// of the case body (the bound variable), not the communication statement itself.
+func queueTake(g *core.Graph, f *core.Func, q string) (*core.GNode, types.Object) {
+	info := f.Pkg.TypesInfo
+	var at *core.GNode
+	var obj types.Object
+	ast.Inspect(f.Body, func(m ast.Node) bool {
+		if _, isLit := m.(*ast.FuncLit); isLit && m != ast.Node(f.Lit) {
+			return false
+		}
+		switch x := m.(type) {
+		case *ast.CommClause:
+			as, ok := x.Comm.(*ast.AssignStmt)
+			if !ok || !takesFromQueue(as, q) || len(as.Lhs) == 0 {
+				return true
+			}
+			for _, n := range g.Nodes {
+				if n.Kind == core.KStmt && n.Ast == ast.Node(as.Lhs[0]) {
+					at, obj = n, core.ObjOf(info, as.Lhs[0])
+				}
+			}
+		case *ast.RangeStmt:
+			if strings.HasSuffix(core.ExprStr(x.X), q) && x.Key != nil {
+				if _, isChan := info.TypeOf(x.X).Underlying().(*types.Chan); isChan {
+					for _, n := range g.Nodes {
+						if n.Kind == core.KStmt && n.Ast == ast.Node(x) {
+							at, obj = n, core.ObjOf(info, x.Key)
+						}
+					}
+				}
+			}
+		case *ast.AssignStmt:
+			if at == nil && len(x.Lhs) >= 1 && takesFromQueue(x, q) {
+				for _, n := range g.Nodes {
+					if n.Kind == core.KStmt && n.Ast == ast.Node(x) {
+						at, obj = n, core.ObjOf(info, x.Lhs[0])
+					}
+				}
+			}
+		}
+		return true
+	})
+	return at, obj
 }
